@@ -29,14 +29,14 @@ CHECKS = {
     "C01": dict(
         category="exploration",
         technique="bounded-exhaustive enumeration of program derivations (statement grammar over feature atoms and compound frames, <= 3/4 nodes) x 8 option combinations, differential execution against CPython",
-        text="Every derivation of a statement grammar (27 simple feature atoms, 3 interrupts, 15 compound frames with block holes) with at most 3 (quick) / 4 (thorough) statement nodes is converted under all 8 option combinations and evaluated; stdout and the canonical user globals must equal those of exec(source), and only __ol_*/itertools/importlib names may be added. The space is enumerated completely.",
+        text="Every derivation of a statement grammar (27 simple feature atoms, 3 interrupts, 15 compound frames with block holes) with at most 3 (quick) / 4 (thorough) statement nodes, plus a block of n simple statements for every n up to twice the converter's chunk length + 10 in 7 kinds of block, is converted under all 8 option combinations and evaluated; stdout and the canonical user globals must equal those of exec(source), and only __ol_*/itertools/importlib names may be added. The space is enumerated completely.",
         note="Trusted: CPython as reference semantics; the canonical observation (functions/classes by structure, no metadata, no annotations).",
         ref="DESIGN.md 3 C01",
     ),
     "C06": dict(
         category="exploration",
         technique="bounded-exhaustive enumeration of scope trees (<= 3/4 scopes of kinds module/def/class/lambda/listcomp/genexpr x one role per scope from a complete role catalogue) x 8 option combinations, differential execution against CPython",
-        text="Every scope tree with at most 3 (quick) / 4 (thorough) scopes and every assignment of binding roles (read, assign, augmented, walrus, parameter kinds, for/comprehension target, global/nonlocal forms, def/class/import binding, read-then-assign) to the tracked name is rendered to a program that logs the name before and after each inner scope runs; the log and final globals of every conversion must equal CPython's. Complete within the bound.",
+        text="Every scope tree with at most 3 (quick) / 4 (thorough) scopes and every assignment of binding roles (read, assign, augmented, walrus, parameter kinds, for/comprehension target, global/nonlocal forms, def/class/import binding, read-then-assign) to the tracked name is rendered to a program that logs the name before and after each inner scope runs; the log and final globals of every conversion must equal CPython's. In addition every chain of 4 (thorough: 4 and 5) scopes and every fork (a function with a sibling def/class next to a chain of <= 2 scopes) over a reduced role catalogue, where every function also owns an unrelated captured variable. Complete within the bound.",
         note="Trusted: CPython for name resolution; candidates CPython rejects or that raise are outside the fragment (counted).",
         ref="DESIGN.md 3 C06",
     ),
@@ -85,7 +85,7 @@ CHECKS = {
     "C09": dict(
         category="model_checking",
         technique="exhaustive identifier x role x feature matrix executed differentially against CPython, plus stateless schedule exploration of the random source (every draw answered 'fresh' or 'equal to an earlier value', deviation-bounded) with the output compared up to renaming and executed",
-        text="Every cell of (28 risky identifiers incl. every builtin the generated code calls, read from generated ASTs) x (13 binding roles) x (21 helper-introducing features + 10 scope-local features) under 8 option combinations must behave like the same program under CPython; and for 12 programs with several temporaries every schedule of RNG answers with up to 2 (quick) / 4 (thorough, short programs) forced equalities must give output identical up to renaming that behaves like the source.",
+        text="Every cell of (28 risky identifiers incl. every builtin the generated code calls, read from generated ASTs) x (15 binding roles) x (25 helper-introducing features + 11 scope-local features) under 8 option combinations must behave like the same program under CPython; and for 12 programs with several temporaries every schedule of RNG answers with up to 2 (quick) / 4 (thorough, short programs) forced equalities must give output identical up to renaming that behaves like the source.",
         note="Trusted: CPython; random.choices is the only randomness and is owned by the harness.",
         ref="DESIGN.md 3 C09, 5b E2",
     ),
@@ -99,7 +99,7 @@ CHECKS = {
     "C12": dict(
         category="exploration",
         technique="bounded-exhaustive enumeration of the class skeleton product (bases x metaclass x keywords x decorators x member kinds x placements) x 8 option combinations, observed by an injected observer and compared with CPython",
-        text="Every skeleton of {4 base shapes} x {metaclass} x {class keyword} x {0..2 decorators} x {21 member kinds; thorough: all pairs} x {5 placements incl. header helpers local to a function / members of an enclosing class}: filtered vars(cls), MRO, metaclass, results of calling every member on instances and subclasses, property behaviour and name binding must equal CPython's.",
+        text="Every skeleton of {4 base shapes} x {metaclass} x {class keyword} x {0..2 decorators} x {35 member kinds; thorough: all pairs} (+ 9 further header shapes: keyword order around metaclass=, several keywords, ** expansion, with a reduced member set) x {5 placements incl. header helpers local to a function / members of an enclosing class}: filtered vars(cls), MRO, metaclass, results of calling every member on instances and subclasses, property behaviour and name binding must equal CPython's.",
         note="Trusted: CPython; namespace-observing creation hooks (__set_name__, __slots__, metaclass reading members) are outside the fragment and not generated.",
         ref="DESIGN.md 3 C12",
     ),
